@@ -3,6 +3,7 @@ package main
 import (
 	"bufio"
 	"fmt"
+	"io"
 	"os"
 	"os/exec"
 	"os/signal"
@@ -152,4 +153,91 @@ func c15failCase(cw *caseWriter, tag, dir string, limit uint64, sizeB int) {
 		cw.stats["c15fail_close_ok"]++
 	}
 	cw.emit(tag, 1015, []uint64{limit, uint64(sizeB)}, v, closeB == 0)
+}
+
+// component 1016 (monitored only) — payloads LARGER than the sink's 4096-byte buffer, written in chunks of
+// mixed sizes (a few bytes, just below / at / above the buffer size, several buffers), as an FSM's Persist or
+// io.Copy from the network does. Property (C15): what Open returns is byte-identical to what was written, in
+// the order it was written, and the snapshot is listed. (The strace-tied model covers payloads below the
+// buffer size; the buffering itself is bufio's and is only monitored here.)
+func runC15big(cw *caseWriter, tier string, seed uint64) {
+	r := &rng{s: seed*733 + 5}
+	cnt := 60
+	if tier != "quick" {
+		cnt = 1500
+	}
+	root, err := os.MkdirTemp("", "c15big")
+	if err != nil {
+		return
+	}
+	defer os.RemoveAll(root)
+	cfg := raft.Configuration{Servers: []raft.Server{{Suffrage: raft.Voter, ID: "a", Address: "a"}}}
+	_, trans := raft.NewInmemTransport("a")
+	sizes := []int{1, 3, 17, 100, 500, 4000, 4095, 4096, 4097, 5000, 8192, 9000, 20000}
+	for k := 0; k < cnt; k++ {
+		tag := cw.tag("B")
+		dir := fmt.Sprintf("%s/b%d", root, k)
+		store, err := raft.NewFileSnapshotStore(dir, 2, nil)
+		if err != nil {
+			continue
+		}
+		sink, err := store.Create(1, uint64(10+k), 1, cfg, 1, trans)
+		if err != nil {
+			continue
+		}
+		var all []byte
+		var plan []int
+		nch := 1 + r.intn(5)
+		ok := true
+		for c := 0; c < nch && ok; c++ {
+			n := sizes[r.intn(len(sizes))]
+			if r.chance(1, 4) {
+				n += r.intn(50)
+			}
+			plan = append(plan, n)
+			chunk := make([]byte, n)
+			for i := range chunk {
+				chunk[i] = byte(len(all) + i*31 + c*7 + k)
+			}
+			all = append(all, chunk...)
+			if m, err := sink.Write(chunk); err != nil || m != n {
+				ok = false
+			}
+		}
+		cerr := sink.Close()
+		cw.stats["c15big_cases"]++
+		if !ok || cerr != nil {
+			cw.stats["c15big_write_or_close_errors"]++
+			continue
+		}
+		metas, _ := store.List()
+		found := false
+		for _, m := range metas {
+			if m.ID == sink.ID() {
+				found = true
+				if m.Size != int64(len(all)) {
+					cw.monitor("C15", tag, "listed-size-differs-from-written", "chunks %v: listed size %d, written %d", plan, m.Size, len(all))
+				}
+			}
+		}
+		if !found {
+			cw.monitor("C15", tag, "close-returned-nil-but-not-listed", "chunks %v", plan)
+			continue
+		}
+		_, rc, err := store.Open(sink.ID())
+		if err != nil {
+			cw.monitor("C15", tag, "listed-snapshot-does-not-open", "chunks %v: %v", plan, err)
+			continue
+		}
+		got, _ := io.ReadAll(rc)
+		rc.Close()
+		if string(got) != string(all) {
+			at := 0
+			for at < len(got) && at < len(all) && got[at] == all[at] {
+				at++
+			}
+			cw.monitor("C15", tag, "opened-content-differs-from-written", "chunks %v: %d bytes read, %d written, first difference at offset %d", plan, len(got), len(all), at)
+			cw.monitor("C11", tag, "opened-content-differs-from-written", "chunks %v: first difference at offset %d", plan, at)
+		}
+	}
 }
